@@ -30,7 +30,7 @@ TouchstoneKinds == {"s1p", "s2p", "s3p", "s4p", "ts"}
 Mutations == {"none", "tokDel", "tokDup", "tokSwap", "numPerturb", "kwReorder",
               "lineDel", "lineDup", "truncate", "yamlKind", "randBytes",
               "insert", "splice", "kwRepeat", "yamlAlias",
-              "tokLen", "freqEq", "kwRestate"}
+              "tokLen", "freqEq", "kwRestate", "verCross"}
 
 (* yamlKind (node kind substitution) and yamlAlias (anchors / aliases:    *)
 (* cycles, shared subtrees, deep nesting) need a YAML document             *)
@@ -39,6 +39,8 @@ Mutations == {"none", "tokDel", "tokDup", "tokSwap", "numPerturb", "kwReorder",
 Applicable(kind, mut) ==
     /\ mut \in {"yamlKind", "yamlAlias"} => kind \in {"vnacal", "yamlfile", "yamlstring"}
     /\ mut \in {"freqEq", "kwRestate"} => kind \in DataKinds \cup {"vnacal"}
+    (* verCross: keys / version numbers of other versions of the .vnacal format *)
+    /\ mut = "verCross" => kind = "vnacal"
 
 -----------------------------------------------------------------------------
 (* (1) the outcome contract                                                *)
